@@ -77,6 +77,14 @@ def analyse(seed):
   history = None
   if r2.random() < 0.4:                      # the object analysed an experiment of the other cost scenario before
     history = tbrfam.gen_frame(seed + 77, cooldown=spec['n_cool'] > 0, scenario='variable' if want_fixed else 'fixed')
+    if r2.random() < 0.5:
+      # ... with the same numbers of pre-period, test and cooldown days
+      for k in ('n_pre', 'n_test', 'n_cool'):
+        history[k] = spec[k]
+      nd = spec['n_pre'] + spec['n_test'] + spec['n_cool']
+      for g in history['geos']:
+        g['response'] = (g['response'] * (nd // len(g['response']) + 1))[:nd]
+        g['cost'] = (g['cost'] * (nd // len(g['cost']) + 1))[:nd]
   out['reused'] = history is not None
   rstate = r2.choice([0, 7, 12345])                 # the seed is the caller's: 0 is a seed like any other
   m = fit_iroas(spec, history=history)
